@@ -139,6 +139,11 @@ func (w *requestWriter) encodeHeaders(req *http.Request, addGzipHeader bool, tra
 			if !httpguts.ValidHeaderFieldValue(v) {
 				return nil, fmt.Errorf("invalid HTTP header value %q for header %q", v, k)
 			}
+			// The TE header field must not contain any value other than "trailers", see section 4.2 of RFC 9114.
+			// The receiver treats a request containing any other value as malformed.
+			if strings.EqualFold(k, "te") && v != "trailers" {
+				return nil, fmt.Errorf("invalid TE header field value %q: only \"trailers\" is allowed in HTTP/3", v)
+			}
 		}
 	}
 
